@@ -652,7 +652,7 @@ func c13Regress(t *testing.T, key string, v c13BaseVariant, mode string, fields 
 			}
 		}
 		if !found {
-			t.Fatalf("harness: unknown field %s", n)
+			t.Fatalf("VERIF-INCONCLUSIVE: harness: unknown field %s", n)
 		}
 	}
 	ch, o := c13Run(t, func(cx *c13Cx) *c13Change { return c13Build(cx, v, c13Base(cx, v), sel, map[string]int{}) }, mode)
